@@ -19,7 +19,9 @@ func LeftRotate(left, right value.Value) error {
 	}
 	lv := value.Unwrap[*value.Integer](left)
 	rv := value.Unwrap[*value.Integer](right)
-	v := (lv.Value << rv.Value) | (lv.Value >> (64 - rv.Value))
+	// rotation count is taken modulo 64, negative count rotates to the opposite direction
+	n := ((rv.Value % 64) + 64) % 64
+	v := (lv.Value << n) | (lv.Value >> (64 - n))
 	if int64(v) > int64(math.MaxInt64) {
 		lv.Value = 0
 		lv.IsPositiveInf = true
@@ -40,7 +42,9 @@ func RightRotate(left, right value.Value) error {
 	}
 	lv := value.Unwrap[*value.Integer](left)
 	rv := value.Unwrap[*value.Integer](right)
-	v := (lv.Value >> rv.Value) | (lv.Value << (64 - rv.Value))
+	// rotation count is taken modulo 64, negative count rotates to the opposite direction
+	n := ((rv.Value % 64) + 64) % 64
+	v := (lv.Value >> n) | (lv.Value << (64 - n))
 	if int64(v) > int64(math.MaxInt64) {
 		lv.Value = 0
 		lv.IsPositiveInf = true
